@@ -3,9 +3,8 @@
 // C29: a channel never goes idle while an RPC is active; RPC starts wait for idle exit; enter/exit alternate.
 //verif:pkg internal/idle
 //verif:bound loop=40 steps=6000000 preempt=2 paths=1500000
-//verif:thorough preempt=3 paths=6000000
 //verif:noreplay schedule-dependent: witnesses are re-executed deterministically in the engine from the recorded decision prefix
-//verif:outside more than 2 concurrent RPCs, one idle-timer expiry racing with them (plus re-armed timers firing once everything else is quiet), one Connect call and one Close; preemption bound 2 (quick) / 3 (thorough)
+//verif:outside more than 2 concurrent RPCs, one idle-timer expiry racing with them (plus re-armed timers firing once everything else is quiet), one Connect call and one Close; preemption bound 2
 package idle
 
 import (
